@@ -5,7 +5,9 @@ From Acme.C13 Require Import ProofsWf Proofs.
 Import ListNotations.
 Open Scope Z_scope.
 
-(* the loader model is total: every protobuf tree is mapped to an error or to a network *)
+(* definitional: the loader model is a total Gallina function (every protobuf tree is mapped to an error
+   or to a network).  It carries no information about the Go code: absence of Go panics, hangs and
+   fatal errors is established by the guarded exploration of ./check C13, not by this statement. *)
 Theorem load_total : forall (now : time) (p : PNet),
   (exists c, load now p = Err c) \/ (exists n, load now p = Ok n).
 Proof. exact load_total_lemma. Qed.
